@@ -14,3 +14,35 @@ int ax_lent(addrxlat_ctx_t *ctx)
 }
 
 unsigned long ax_ctx_refcnt(addrxlat_ctx_t *ctx) { return ctx->refcnt; }
+
+/* a 64-bit read through the context's read cache: do_read64() -> get_cache_buf() -> top get_page callback */
+int ax_read64(addrxlat_ctx_t *ctx, int as, unsigned long long addr, unsigned long long *val)
+{
+	addrxlat_fulladdr_t fa;
+	uint64_t v = 0;
+	addrxlat_status st;
+	fa.as = as; fa.addr = addr;
+	st = do_read64(ctx, &fa, &v);
+	*val = v;
+	if (st != ADDRXLAT_OK) addrxlat_ctx_clear_err(ctx);
+	return (int)st;
+}
+
+/* state of the read cache: slots in array order ("as:addr" of the lent page, "-" when empty), then the MRU ring as slot indices */
+void ax_state(addrxlat_ctx_t *ctx, char *out, unsigned long sz)
+{
+	unsigned long n = 0;
+	int i;
+	struct read_cache_slot *sl;
+	n += snprintf(out + n, sz - n, "s=");
+	for (i = 0; i < READ_CACHE_SLOTS && n < sz; ++i) {
+		addrxlat_buffer_t *b = &ctx->cache.slot[i].buffer;
+		if (b->size) n += snprintf(out + n, sz - n, "%s%d:%llu", i ? "," : "", (int)b->addr.as, (unsigned long long)b->addr.addr);
+		else n += snprintf(out + n, sz - n, "%s-", i ? "," : "");
+	}
+	n += snprintf(out + n, sz - n, " o=");
+	for (i = 0, sl = ctx->cache.mru; i < READ_CACHE_SLOTS && n < sz; ++i, sl = sl->next)
+		n += snprintf(out + n, sz - n, "%s%d", i ? "," : "", (int)(sl - ctx->cache.slot));
+}
+
+int ax_nslots(void) { return READ_CACHE_SLOTS; }
